@@ -40,6 +40,10 @@ class CallMixin:
                 return self.evargs(st, n, lambda s, a, kw: self.construct(s, nm, key, a, kw, n.lineno))
             if key in self.functions or key in self.reg.contracts:
                 return self.evargs(st, n, lambda s, a, kw: self.call_function(s, key, a, kw, n.lineno))
+            if nm in st.env and isinstance(st.env[nm], V) and base_type(st.env[nm].ty) in self.reg.classes:
+                # a local object that is called: obj(...) is obj.__call__(...)
+                recv = st.env[nm]
+                return self.evargs(st, n, lambda s, a, kw: self.call_method(s, recv, "__call__", a, n.lineno, kw=kw))
             raise Unsupported(f"call to {nm} (no contract) at line {n.lineno}")
         if isinstance(f, ast.Attribute):
             d = self.dotted(f)
